@@ -35,6 +35,7 @@ func init() {
 			{Name: "cycles", Stream: c07StreamCycles, Eval: c07EvalReject},
 			{Name: "faults", N: constN(600, 20000), Gen: genModelCase, Eval: c07EvalFaults},
 			{Name: "skeleton-twins", N: constN(30000, 900000), Gen: c07GenSkeleton, Eval: c07EvalSkeleton},
+			{Name: "unused-macro-anywhere", N: constN(1500, 50000), Gen: genModelCase, Eval: c07EvalUnusedAnywhere},
 		},
 		Floors: map[string]int64{"twins_compared": 3000, "cyclic_graphs": 300},
 	})
@@ -526,4 +527,50 @@ func c07GenSkeleton(r *xrand.Rand, idx int, tier string) *fw.Case {
 	}
 	host := grow(hostStart, hostKinds, r.Range(0, 6), false)
 	return &fw.Case{Meta: map[string]string{"body": encodeSeq(body), "host": encodeSeq(host), "macro_first": fmt.Sprint(r.Bool())}, Docs: []run.Doc{{}}}
+}
+
+
+// c07EvalUnusedAnywhere: the definition of a macro that nobody pastes is written in front of any directive that may
+// stand at the top level - also in front of a method inside a URL block (written without parentheses): definitions are
+// taken out of the text, so whatever followed the definition goes on where the text before it had stopped.
+func c07EvalUnusedAnywhere(t *fw.T, c *fw.Case) {
+	m, r := modelOf(c, gen.Options{MaxBlocks: 8, AllowAllOf: true})
+	base := gen.Render(m, nil)
+	db := run.Single([]byte(base.Text))
+	db.FixedSeed = true
+	ob := t.Exec(db)
+	if ob.Outcome != run.Accepted {
+		return
+	}
+	rootKinds := map[string]bool{"GET": true, "POST": true, "PUT": true, "PATCH": true, "DELETE": true, "URL": true, "TYPE": true, "ENUM": true, "SERVER": true, "INFO": true, "TAG": true}
+	var at []gen.Span
+	for _, s := range base.Spans {
+		if rootKinds[s.Kind] && s.Begin > 0 {
+			at = append(at, s)
+		}
+	}
+	if len(at) == 0 {
+		return
+	}
+	def := "MACRO @zzNobodyPastes\n(\n  TYPE @zzOnlyInMacro any\n  GET /zz/only/in/macro\n    200 any\n)\n"
+	for k := 0; k < 3; k++ {
+		s := at[r.Intn(len(at))]
+		ls := strings.LastIndexByte(base.Text[:s.Begin], '\n') + 1
+		text := base.Text[:ls] + def + base.Text[ls:]
+		d := run.Single([]byte(text))
+		d.FixedSeed = true
+		o := t.Exec(d)
+		t.Count("unused_macro_checked")
+		t.Count("unused_macro_inside_blocks_checked")
+		if o.Outcome != run.Accepted || !bytes.Equal(o.JSON, ob.JSON) {
+			c.Docs = []run.Doc{db, d}
+			where := "top level"
+			if s.Depth > 0 {
+				where = "inside a block"
+			}
+			t.Violation("unused-macro-contributes:"+where, fmt.Sprintf("the definition of a macro that is never pasted, written in front of %s (%s), changes the result: %s\n%s", s.Label, where, describe(o), text))
+			return
+		}
+		t.Distinct(fmt.Sprintf("unused before %s depth%d", s.Kind, s.Depth))
+	}
 }
